@@ -369,8 +369,15 @@ func ruleHops(r *core.Reporter) {
 			if c, ok := in.(*ssa.Call); ok {
 				if f := ir.CalleeOf(c.Common()); f != nil && core.InModule(f) {
 					pk := core.RelPkg(core.FuncPkg(f))
-					if (strings.Contains(pk, "extractor") || strings.Contains(pk, "sitespecific")) && f.Signature.Results().Len() >= 2 {
-						producers = append(producers, in)
+					if strings.Contains(pk, "extractor") || strings.Contains(pk, "sitespecific") || f.Name() == "extractLinksFromPage" {
+						// any call that hands back URL objects is a producer of the returned list
+						res := f.Signature.Results()
+						for i := 0; i < res.Len(); i++ {
+							if strings.Contains(res.At(i).Type().String(), "models.URL") {
+								producers = append(producers, in)
+								break
+							}
+						}
 					}
 				}
 			}
